@@ -41,6 +41,7 @@
 #include <stdarg.h>
 #include <string.h>
 #include "evstrm.h"
+#include "scale.h"
 #include "nifty.h"
 
 
@@ -80,6 +81,15 @@ seria_evmux(int whither, echs_const_evstrm_t strm)
 		echs_evstrm_seria(whither, this->s[i]);
 	}
 	return;
+}
+
+static inline echs_instant_t
+_when(echs_event_t e)
+{
+/* an occurrence to be printed in another calendar still happens when it
+ * happens, and that's what streams are ordered by */
+	return LIKELY(echs_instant_scale(e.from) == SCALE_GREGORIAN)
+		? e.from : echs_instant_rescale(e.from, SCALE_GREGORIAN);
 }
 
 static echs_event_t
@@ -129,10 +139,11 @@ next_evmux(echs_evstrm_t strm, bool popp)
 
 		if (echs_event_0_p(ecur)) {
 			continue;
-		} else if (echs_event_lt_p(ecur, best)) {
+		} else if (echs_instant_lt_p(_when(ecur), _when(best))) {
 			best = ecur;
 			besti = i;
-		} else if (echs_event_eq_p(ecur, best)) {
+		} else if (echs_oid_eq_p(ecur.oid, best.oid) &&
+			   echs_instant_eq_p(_when(ecur), _when(best))) {
 			/* should this be optional? --uniq? */
 			echs_evstrm_t s = this->s[i];
 			(void)echs_evstrm_pop(s);
